@@ -5,5 +5,5 @@ From Coq.Strings Require Import Byte.
 From Coq Require Import Extraction ExtrOcamlBasic.
 From GI Require Import Lib.Bytes Txtar.Txtar TsRun.TsFs TsRun.TsRegex TsRun.TsState TsRun.TsCmds TsRun.TsRun TsRun.TsSpec TsRun.TsUpdate TsRun.TsRerun.
 Extraction Language OCaml.
-Extraction "extracted/tsrun/model.ml" Byte.of_N Byte.to_N run_file_full rerun_covered run_file cli_exit batch_verdicts
+Extraction "extracted/tsrun/model.ml" Byte.of_N Byte.to_N run_file_full rerun_covered run_file cli_exit batch_verdicts runT_seq
   parse_re re_has_match re_count re_byte_safe tokenise expand clean join2 base dir parse format needs_quote quote apply_updates.
